@@ -215,3 +215,18 @@ def run_wrapped(module, consts, body_cfg, raw=None, **kw):
     extra = dict(kw.pop("extra_modules", None) or {})
     extra[root] = text
     return run(root, cblock + body_cfg, extra_modules=extra, **kw)
+
+
+def canon(x):
+    """canonical text of a decoded JSON value (record field order is not stable in TLC output)."""
+    return json.dumps(x, sort_keys=True)
+
+
+def dedupe(emits, keyfn=lambda e: e["cs"]):
+    seen, out = set(), []
+    for e in emits:
+        k = canon(keyfn(e))
+        if k not in seen:
+            seen.add(k)
+            out.append(e)
+    return out
